@@ -159,6 +159,26 @@ func genRequest(t *sim.Tape, thorough bool, idx int) *genReq {
 		}
 		n := sizes[t.Choice(len(sizes), "bodysize")]
 		g.Body = t.Sub("body").Bytes(n)
+		if n > 0 && !hasField(g.Fields, "Content-Type") && t.Rare(1, 4, "formbody") {
+			// form submissions: bodies a server-side form parser would be tempted to consume
+			if t.Choice(2, "formkind") == 0 {
+				g.Fields = append(g.Fields, hfield{"Content-Type", []string{"application/x-www-form-urlencoded", "application/x-www-form-urlencoded; charset=UTF-8"}[t.Choice(2, "formct")]})
+				var fb strings.Builder
+				for fb.Len() < n {
+					fmt.Fprintf(&fb, "k%d=v%%20%d&backend-id=x&request-id=y&", fb.Len(), fb.Len())
+				}
+				g.Body = []byte(fb.String()[:n])
+			} else {
+				g.Fields = append(g.Fields, hfield{"Content-Type", "multipart/form-data; boundary=XbOuNdArY"})
+				var fb strings.Builder
+				fb.WriteString("--XbOuNdArY\r\nContent-Disposition: form-data; name=\"backend-id\"\r\n\r\nvalue\r\n")
+				for fb.Len() < n {
+					fmt.Fprintf(&fb, "--XbOuNdArY\r\nContent-Disposition: form-data; name=\"f%d\"\r\n\r\n%d\r\n", fb.Len(), fb.Len())
+				}
+				fb.WriteString("--XbOuNdArY--\r\n")
+				g.Body = []byte(fb.String())
+			}
+		}
 		if n > 0 && t.Rare(1, 2, "chunked") {
 			g.Chunked = true
 			g.SlowBody = t.Rare(1, 6, "slowbody")
